@@ -9,7 +9,7 @@ PROP = {
             "points alone and random interleavings of 2..30 calls, generator states = seed + 0..700 discarded draws (crosses the 624-word refill); grid: all (sample, thinning, burn_in) in "
             "{0,1,2,3,5,10,50,200} x {1,2,3,7,10,50,200} x {0,1,2,9,10,100,200} for 1D and 2D, bounded and unbounded; laws: uniform, Gaussian, Poisson (means 1e-2..5e3 incl. 499, 500, 501, "
             "1000), inverse transform and rejection (tight and loose envelopes) on five targets, 2D rejection, Metropolis 1D/2D bounded and unbounded on thinned chains",
-    "floors": {"quick": {"cases": 2800, "distinct_nontrivial": 500,
+    "floors": {"quick": {"cases": 4200, "distinct_nontrivial": 930,
                          "ticks": {"Sample_Poisson.rescale": 1000, "Rejection_Sampling.trial": 100000},
                          "clauses": {"equal-generator-states-give-identical-outputs": 1800, "equal-generator-states-leave-equal-states-behind": 1800,
                                      "every-sampler-call-advances-the-passed-generator": 1800,
